@@ -438,11 +438,24 @@ def link_format_from_message(message):
         certain_format = message.request.opt.accept
     try:
         if certain_format == ContentFormat.LINKFORMAT:
-            return parse(message.payload.decode("utf8"))
+            links = parse(message.payload.decode("utf8"))
         else:
             raise error.UnsupportedMediaType()
     except (UnicodeDecodeError, link_header.ParseException):
         raise error.BadRequest()
+
+    # Targets and anchors will be resolved against the registration's base
+    # later in lookups, over and over: refuse right away what can never be
+    # resolved, or it would fail the lookups of everybody
+    for link in links.links:
+        try:
+            urljoin("coap://localhost/", link.href)
+            if "anchor" in link:
+                urljoin("coap://localhost/", link.anchor)
+        except ValueError:
+            raise error.BadRequest("link target or anchor is not a usable URI reference")
+
+    return links
 
 
 class ThingWithCommonRD:
